@@ -322,6 +322,10 @@ type FS struct {
 	ReaddirMax        int  // >0: at most that many entries per Readdir call
 	IoUnit            uint32
 	KeepCalls         bool // keep the full call log (else only counters)
+	// RecursiveRemove: unlinking or overwriting a non-empty directory takes
+	// everything below with it (a backend is free to allow that), so fids
+	// several levels below a removed entry exist.
+	RecursiveRemove bool
 	NoOverlapCheck    bool
 
 	// Hold decides at enter whether a call is parked until released.
@@ -1265,7 +1269,7 @@ func (h *Handle) RenameAt(oldName string, newDir p9.File, newName string) error 
 		}
 	}
 	if old := dst.kids.Get(newName); old != nil {
-		if old.Kind == Dir && len(old.names) > 0 {
+		if old.Kind == Dir && len(old.names) > 0 && !fs.RecursiveRemove {
 			c.Err = linux.ENOTEMPTY
 			return c.Err
 		}
@@ -1315,7 +1319,7 @@ func (h *Handle) UnlinkAt(name string, flags uint32) error {
 		c.Err = linux.ENOENT
 		return c.Err
 	}
-	if v.Kind == Dir && len(v.names) > 0 {
+	if v.Kind == Dir && len(v.names) > 0 && !fs.RecursiveRemove {
 		c.Err = linux.ENOTEMPTY
 		return c.Err
 	}
